@@ -581,6 +581,10 @@ def rule_print_all(ctx: RuleContext, p: Program, rid: str) -> None:
                     return _str_of(args[0])
                 if e.func.id == 'repr' and len(args) == 1 and isinstance(args[0], str):
                     return repr(args[0])
+            if isinstance(e, ast.Attribute) and not (isinstance(e.value, ast.Name) and e.value.id not in env):
+                b_ = self.expr(e.value, env)
+                if isinstance(b_, possem.Obj) and b_.cls == 'StrSub' and not e.attr.startswith('_') and hasattr(str, e.attr):
+                    return getattr(b_.f['chars'], e.attr)          # the str methods of a subclass instance work on its characters
             if isinstance(e, ast.JoinedStr):
                 out_s = ''
                 for part in e.values:
@@ -601,6 +605,8 @@ def rule_print_all(ctx: RuleContext, p: Program, rid: str) -> None:
         def truth(self, v: Any, node: Any) -> bool:               # type: ignore[override]
             if isinstance(v, possem.Obj) and v.cls == 'Store':
                 return bool(v.f['all'])
+            if isinstance(v, possem.Obj) and v.cls == 'StrSub':
+                return bool(v.f['chars'])
             if isinstance(v, possem.Obj):
                 return True
             return super().truth(v, node)
